@@ -1,0 +1,50 @@
+//go:build verif
+
+package scheduler
+
+import (
+	"github.com/andres-erbsen/clock"
+	"github.com/uber-go/tally"
+
+	"github.com/uber/kraken/core"
+	"github.com/uber/kraken/lib/torrent/networkevent"
+	"github.com/uber/kraken/lib/torrent/scheduler/announcequeue"
+	"github.com/uber/kraken/lib/torrent/storage"
+	"github.com/uber/kraken/tracker/announceclient"
+)
+
+// VerifC20Scheduler is a started agent scheduler built by VerifC20NewScheduler.
+// All Scheduler methods are the real ones.
+type VerifC20Scheduler struct {
+	*scheduler
+}
+
+// VerifC20NewScheduler builds and starts an agent scheduler exactly the way
+// NewAgentScheduler does (newScheduler + start with a real announce queue), on
+// a caller-supplied clock, torrent archive and announce client. Test-only seam
+// for the C20 runtime monitor; no logic of its own.
+func VerifC20NewScheduler(
+	config Config,
+	ta storage.TorrentArchive,
+	stats tally.Scope,
+	pctx core.PeerContext,
+	announceClient announceclient.Client,
+	netevents networkevent.Producer,
+	clk clock.Clock) (*VerifC20Scheduler, error) {
+
+	s, err := newScheduler(config, ta, stats, pctx, announceClient, netevents, withClock(clk))
+	if err != nil {
+		return nil, err
+	}
+	if err := s.start(announcequeue.New()); err != nil {
+		return nil, err
+	}
+	return &VerifC20Scheduler{s}, nil
+}
+
+// VerifC20AnnounceTick sends the event the announcer's ticker sends
+// (announceTickEvent) to the event loop, on demand. Returns false if the
+// scheduler has been stopped.
+func (s *VerifC20Scheduler) VerifC20AnnounceTick() bool {
+	return s.eventLoop.send(announceTickEvent{})
+}
